@@ -590,8 +590,9 @@ CLAIM = {
             'Fb_(k+1)=(Fb_k+g_k)(1+u)+u*ssd_(k+1), g_k=4uR^2+eta+R(Eb_k+Eb_(k+1))+Eb_k*Eb_(k+1); closed form Fb_k <= '
             '(1+u)^(k-1)(k-1)(g_(k-1)+u*ssd_k)), and every emitted variance (streaming and at completion) within '
             'Fb_k/(k-1)(1+u)+u*ssd_k/(k-1)+eta of the exact sample variance: relative error proportional to machine epsilon, '
-            'the count and the conditioning (A*R/variance, R^2/variance). NOT proved: the binary64 error of stddev beyond '
-            'its sqrt being defined, and of the '
+            'the count and the conditioning (A*R/variance, R^2/variance). stddev = sqrt of that '
+            'variance, one more correctly rounded operation without underflow term: |stddev_k - sqrt(var_k)| <= '
+            'sqrt(V_k)(1+u) + u*sqrt(var_k), V_k the variance bound; 0.0 exactly for one item. NOT proved: the binary64 error of the '
             'two-pass formal variance/stddev - it is TESTED by the oracle against exact rational arithmetic on every '
             'prefix with the explicit bound given in `rule`.',
     'note': 'Trusted: Coq kernel+VM incl. primitive 63-bit integers and binary64 floats (evaluation only; no '
